@@ -648,6 +648,8 @@ def inertKidsView : List Tmpl → List Node
     .elem tag (attrs.map inertAttrView) (if macroIsVoid tag then [] else inertKidsView kids) :: inertKidsView ts
   | .frag _ :: ts => inertKidsView ts
   | .comp _ :: ts => inertKidsView ts
+  | .comment _ :: ts => inertKidsView ts
+  | .doctype :: ts => inertKidsView ts
 
 def inertView : Tmpl → Node
   | .elem tag attrs kids =>
@@ -656,6 +658,8 @@ def inertView : Tmpl → Node
   | .block s => .text s
   | .frag _ => .text []
   | .comp _ => .text []
+  | .comment _ => .text []
+  | .doctype => .text []
 
 
 /-! ### well-formed templates (hypothesis of the main theorems) -/
@@ -679,6 +683,8 @@ def wfT (anc : List Str) : Tmpl → Bool
        (rawLike tag && kids.isEmpty) || (tag = tTitle && titleKidsT kids))
   | .frag kids => wfTs anc kids
   | .comp kids => nestOK sSection anc && wfTs (sSection :: anc) kids
+  | .comment _ => true
+  | .doctype => false
 def wfTs (anc : List Str) : List Tmpl → Bool
   | [] => true
   | t :: ts => wfT anc t && wfTs anc ts
@@ -769,6 +775,8 @@ theorem good_inertKids : (ks : List Tmpl) → Good (inertKidsView ks)
   | .elem tag attrs kids :: ts => by intro s R e; simp [inertKidsView] at e
   | .frag _ :: ts => by simpa [inertKidsView] using good_inertKids ts
   | .comp _ :: ts => by simpa [inertKidsView] using good_inertKids ts
+  | .comment _ :: ts => by simpa [inertKidsView] using good_inertKids ts
+  | .doctype :: ts => by simpa [inertKidsView] using good_inertKids ts
 
 theorem escapeWith_append (tbl : List (Char × Str)) (a b : Str) :
     escapeWith tbl (a ++ b) = escapeWith tbl a ++ escapeWith tbl b := by
@@ -1071,6 +1079,8 @@ theorem inert_html : (ks : List Tmpl) → ∀ (anc : List Str), wfTs anc ks = tr
   | .block s :: ts, _, _, hi => by simp [inertKids, inertNode] at hi
   | .frag k :: ts, _, _, hi => by simp [inertKids, inertNode] at hi
   | .comp k :: ts, _, _, hi => by simp [inertKids, inertNode] at hi
+  | .comment _ :: ts, _, _, hi => by simp [inertKids, inertNode] at hi
+  | .doctype :: ts, _, _, hi => by simp [inertKids, inertNode] at hi
   | .elem tag attrs kids :: ts, anc, hw, hi => by
     simp only [wfTs, wfT, Bool.and_eq_true, Bool.or_eq_true] at hw
     obtain ⟨⟨⟨hattrs, hnest⟩, hcase⟩, hts⟩ := hw
@@ -1119,6 +1129,8 @@ theorem inert_struct : (ks : List Tmpl) → ∀ (anc : List Str), wfTs anc ks = 
   | .block s :: ts, _, _, hi => by simp [inertKids, inertNode] at hi
   | .frag k :: ts, _, _, hi => by simp [inertKids, inertNode] at hi
   | .comp k :: ts, _, _, hi => by simp [inertKids, inertNode] at hi
+  | .comment _ :: ts, _, _, hi => by simp [inertKids, inertNode] at hi
+  | .doctype :: ts, _, _, hi => by simp [inertKids, inertNode] at hi
   | .elem tag attrs kids :: ts, anc, hw, hi => by
     intro Q
     simp only [wfTs, wfT, Bool.and_eq_true, Bool.or_eq_true] at hw
@@ -1179,6 +1191,8 @@ theorem inert_wf : (ks : List Tmpl) → ∀ (anc : List Str), wfTs anc ks = true
   | .block s :: ts, _, _, hi => by simp [inertKids, inertNode] at hi
   | .frag k :: ts, _, _, hi => by simp [inertKids, inertNode] at hi
   | .comp k :: ts, _, _, hi => by simp [inertKids, inertNode] at hi
+  | .comment _ :: ts, _, _, hi => by simp [inertKids, inertNode] at hi
+  | .doctype :: ts, _, _, hi => by simp [inertKids, inertNode] at hi
   | .elem tag attrs kids :: ts, anc, hw, hi => by
     simp only [wfTs, wfT, Bool.and_eq_true, Bool.or_eq_true] at hw
     obtain ⟨⟨⟨hattrs, hnest⟩, hcase⟩, hts⟩ := hw
@@ -1214,6 +1228,8 @@ def viewOf (ui top : Bool) : Tmpl → List Node
     else [.elem tag (builderAttrs attrs) (if macroIsVoid tag then [] else viewKids ui false kids)]
   | .frag kids => viewKids ui true kids
   | .comp kids => [.elem sSection [] (viewKids ui true kids)]
+  | .comment _ => []
+  | .doctype => []
 def viewKids (ui top : Bool) : List Tmpl → List Node
   | [] => []
   | t :: ts => viewOf ui top t ++ viewKids ui top ts
@@ -1226,6 +1242,8 @@ theorem builderView_eq : (t : Tmpl) → ∀ top, builderView t = viewOf false to
   | .elem tag attrs kids, _ => by simp [builderView, viewOf, builderKids_eq kids false]
   | .frag kids, _ => by simp [builderView, viewOf, builderKids_eq kids true]
   | .comp kids, _ => by simp [builderView, viewOf, builderKids_eq kids true]
+  | .comment _, _ => by simp [builderView, viewOf]
+  | .doctype, _ => by simp [builderView, viewOf]
 theorem builderKids_eq : (ts : List Tmpl) → ∀ top, builderKids ts = viewKids false top ts
   | [], _ => by simp [builderKids, viewKids]
   | t :: ts, top => by simp [builderKids, viewKids, builderView_eq t top, builderKids_eq ts top]
@@ -1303,6 +1321,8 @@ theorem wf_view : (t : Tmpl) → ∀ (ui top : Bool) (anc : List Str), wfT anc t
     simp only [wfT, Bool.and_eq_true] at h
     have ihk := wf_viewKids kids ui true (sSection :: anc) h.2
     simp [viewOf, wfKids, wfNode, attrsOK_nil, h.1, genericOK_section, ihk]
+  | .comment _, _, _, _, _ => by simp [viewOf, wfKids]
+  | .doctype, _, _, _, h => by simp [wfT] at h
 theorem wf_viewKids : (ts : List Tmpl) → ∀ (ui top : Bool) (anc : List Str), wfTs anc ts = true →
     wfKids anc (viewKids ui top ts) = true
   | [], _, _, _, _ => by simp [viewKids, wfKids]
@@ -1388,6 +1408,8 @@ theorem struct_view : (t : Tmpl) → ∀ (ui top : Bool) (anc : List Str), wfT a
     have : innerBuf ([] : List Attr) = [] := rfl
     simp only [List.append_nil, normList] at ihk
     simp [viewOf, structKids, structNode, f1, f2, this, normList, normNode, pushNorm, normAttrs_nil, denK, ihk]
+  | .comment _, _, _, _, _ => by intro pos Q; simp [viewOf, structKids, denK]
+  | .doctype, _, _, _, h => by simp [wfT] at h
 theorem struct_viewKids : (ts : List Tmpl) → ∀ (ui top : Bool) (anc : List Str), wfTs anc ts = true →
     ∀ (pos : Pos) (Q : List Tree), normList (structKids pos (viewKids ui top ts) ++ Q) = denKs true ts (normList Q)
   | [], _, _, _, _ => by intro pos Q; simp [viewKids, structKids, denKs]
@@ -1490,6 +1512,8 @@ theorem rel_view : (t : Tmpl) → ∀ (top : Bool) (anc : List Str), wfT anc t =
     intro pos
     have : innerBuf ([] : List Attr) = [] := rfl
     simp [expHtml, nodeHtml, f1, f2, this, ihk]
+  | .comment _, _, _, _ => by simp only [expand, viewOf]; exact Rel.nil
+  | .doctype, _, _, h => by simp [wfT] at h
 theorem rel_viewKids : (ts : List Tmpl) → ∀ (top : Bool) (anc : List Str), wfTs anc ts = true →
     Rel (expandKids top ts) (viewKids true top ts)
   | [], _, _, _ => by simp only [expandKids, viewKids]; exact Rel.nil
@@ -1557,6 +1581,8 @@ theorem seen_ok : (t : Tmpl) → ∀ (top esc : Bool) (anc : List Str), wfT anc 
     have hd : (Seen.belem sSection [] kids).rawMarker = false := by simp [Seen.rawMarker, e, t]
     simp only [seenNode, List.all_cons, Bool.and_eq_true, hd, Bool.not_false, true_and]
     exact ih
+  | .comment _, _, _, _, _ => by simp [seenNode]
+  | .doctype, _, _, _, _ => by simp [seenNode]
 theorem seen_ok_kids : (ts : List Tmpl) → ∀ (top esc : Bool) (anc : List Str), wfTs anc ts = true →
     (seenKids top esc ts).all (fun s => !s.rawMarker) = true
   | [], _, _, _, _ => by simp [seenKids]
